@@ -173,7 +173,7 @@ def r_obligations():
 
     def lang():
         from rdflib import term
-        return rx.to_z3(XSD_LANGUAGE), rx.to_z3(term._lang_tag_regex)
+        return rx.to_z3(XSD_LANGUAGE), rx.accepted_language(term, "_lang_tag_regex")
 
     obs["lexical/xsd:duration<=ISO8601_PERIOD_REGEX"] = (dur, "duration")
     obs["lexical/xsd:language<=_lang_tag_regex"] = (lang, "lang")
